@@ -82,7 +82,8 @@ Definition ind_std_burn_rule (corr : Z) (S1 : list Q) : res Q :=
 (** * Gaussian noise.  One cell per (individual, visit, feature) of the padded tensors:
     [cy] the observation ([None]: missing or padded — weight 0 in the code's WeightedTensor),
     [c_ym] the statistic in force for [y * model] (its value under the mask is arbitrary),
-    [c_mm] the statistic in force for [model ** 2] (a plain tensor in the code: no mask). *)
+    [c_mm] the statistic in force for [model ** 2] (a plain tensor in the code: it carries no mask of its own and
+    holds the model's value — not 0 — where [y] is missing in a real visit). *)
 Record cell : Type := { cy : option Q; c_ym : Q; c_mm : Q }.
 
 Definition observed (c : cell) : bool := match cy c with Some _ => true | None => false end.
@@ -92,15 +93,15 @@ Definition masked (f : cell -> Q) (c : cell) : Q := if observed c then f c else 
 Definition n_obs (cells : list cell) : Q := lenQ (filter observed cells).
 Definition y_L2 (cells : list cell) : Q := sumQ (map y2 cells).
 
-(** [scalar_noise_std_update]: [(y_L2 - 2 * sum_dim(y_x_model) + sum_dim(model_x_model)) / n_obs].
-    [sum_dim] of the weighted [y_x_model] is masked; whether the sum of [model_x_model] is masked is what the
-    code decides by the type of that statistic ([s2_masked], regenerated: false today). *)
-Definition noise_scalar_var (s2_masked : bool) (cells : list cell) : Q :=
-  (y_L2 cells - 2 * sumQ (map (masked c_ym) cells)
-   + sumQ (map (if s2_masked then masked c_mm else c_mm) cells)) / n_obs cells.
+(** [scalar_noise_std_update]: [(y_L2 + sum_dim(-2*y_x_model + model_x_model)) / n_obs] over ALL cells.
+    The combination is a WeightedTensor carrying the mask of [y] (only [y_x_model] is weighted, [model_x_model] is a
+    plain tensor; the sum is taken AFTER combining them), so the single sum is masked: an unobserved cell contributes
+    nothing, whatever the two statistics hold there. *)
+Definition noise_scalar_var (cells : list cell) : Q :=
+  (y_L2 cells + sumQ (map (masked (fun c => (-2) * c_ym c + c_mm c)) cells)) / n_obs cells.
 
-Definition noise_scalar_rule (tol : Q) (s2_masked : bool) (cells : list cell) : res Q :=
-  if Qeq_bool (n_obs cells) 0 then Undefined else guard tol (noise_scalar_var s2_masked cells).
+Definition noise_scalar_rule (tol : Q) (cells : list cell) : res Q :=
+  if Qeq_bool (n_obs cells) 0 then Undefined else guard tol (noise_scalar_var cells).
 
 (** [diagonal_noise_std_update], one feature: [(y_L2_ft + sum_dim(-2*y_x_model + model_x_model, but_dim=FT)) / n_obs_ft];
     the combination is a WeightedTensor carrying the mask of [y], so the whole sum is masked. *)
